@@ -39,7 +39,9 @@ CLAIMED = {
             "algorithm must fail. Implementation: DFS over all scheduler decisions (2 threads, ranges <=3; 3 threads "
             "thorough) plus random schedules (3-4 threads) and uint8_t ranges ending at 254/255; each run is checked "
             "by TLC both as a path of the model (drift => MODEL-DRIFT, not a violation) and against exactly-once / "
-            "in-range / result / joined-before-return; free runs with 1..16 real threads under ThreadSanitizer.",
+            "in-range / result / joined-before-return; signed element types and ranges across zero; free runs with 1..16 real "
+            "threads under ThreadSanitizer. Thorough tier: inductive invariants of the claim protocol for ARBITRARY integer "
+            "ranges (2-5 workers, block sizes 1-4) discharged by Apalache (specification only).",
             "Trusted: TLC; the shim executes one atomic operation per scheduling step (sequential consistency, as "
             "the code uses default memory order); TSan as data-race sensor on the free runs only; the shim's "
             "compare_exchange_weak never fails spuriously.",
